@@ -233,16 +233,10 @@ impl BlockManager {
         Ok(this)
     }
 
-    pub fn init(&self, clean_blocks: &[BlockId]) {
+    pub fn init(&self, clean_blocks: &[BlockId], evictable_blocks: &[BlockId]) {
         let mut state = self.inner.state.write().unwrap();
-        let mut evictable_blocks: HashSet<BlockId> = self.inner.blocks.iter().map(|r| r.id()).collect();
-        state.clean_blocks = clean_blocks
-            .iter()
-            .inspect(|id| {
-                evictable_blocks.remove(id);
-            })
-            .copied()
-            .collect();
+        state.clean_blocks = clean_blocks.iter().copied().collect();
+        let evictable_blocks = evictable_blocks.iter().copied();
 
         // Temporarily take pickers to make borrow checker happy.
         let mut pickers = std::mem::take(&mut state.eviction_pickers);
